@@ -96,6 +96,20 @@ fn hostile_target() -> BoxedStrategy<String> {
         "\\{[A-Za-z_,é{} ]{0,8}",
         "\\PC{0,12}",
         any::<String>(),
+        // long names of multi-byte characters at every byte offset: whatever cuts or indexes the
+        // target (or a message that echoes it) at a fixed byte position hits a character
+        (0usize..4, prop_oneof![Just("é"), Just("日"), Just("🎉")], 30usize..400, any::<bool>(), any::<bool>()).prop_map(|(pad, ch, n, brace, close)| {
+            let mut t = String::new();
+            if brace {
+                t.push('{');
+            }
+            t.push_str(&"a".repeat(pad));
+            t.push_str(&ch.repeat(n));
+            if brace && close {
+                t.push('}');
+            }
+            t
+        }),
     ]
     .boxed()
 }
